@@ -18,6 +18,7 @@ import SqiGen.KeccakParams
 import SqiProofs.SpongeMain
 import SqiProofs.SpongeGen4
 import SqiProofs.SpongeGenSq3
+import SqiProofs.SpongeWrapGen
 import SqiProofs.Challenge
 import SqiProofs.C20Kat
 import SqiProofs.DrbgRefine
@@ -157,6 +158,86 @@ theorem gen_inc_squeeze_eq_model (F : Fips202.State → Fips202.State) (fuel r :
       (⟨v'.s_inc, v'.pos⟩ : IncState) = (incSqueeze F r st outlen).2 :=
   SqiProofs.SpongeGen.inc_squeeze_eq F fuel r h0 st hp h hoff outlen i0 hl hf
 
+/-! ### the remaining wrappers, re-extracted by tools/translate/spongewrap.py (SqiGen/SpongeWrap.lean) -/
+
+/-- the re-extracted `keccak_inc_init` (25-iteration zeroing loop + `s_inc[25] = 0`) = the hand model `incInit`, whatever the
+    memory contained before -/
+theorem gen_inc_init_eq_model (F : Fips202.State → Fips202.State) (fuel : Nat) (s0 : Fips202.State) (p0 i0 : Nat)
+    (hf : 25 ≤ fuel) :
+    SqiGen.Sponge.keccak_inc_init.run F fuel ⟨s0, p0, i0⟩ = some ⟨incInit.s, incInit.pos, 25⟩ :=
+  SqiProofs.SpongeGen.inc_init_eq F fuel s0 p0 i0 hf
+
+/-- `shake256_inc_init` / `shake128_inc_init` (fresh allocation with arbitrary contents, then the call) -/
+theorem gen_shake_inc_init_eq_model (F : Fips202.State → Fips202.State) (fuel : Nat) (ctx : Fips202.State) (pos i0 : Nat)
+    (hf : 25 ≤ fuel) :
+    SqiGen.Sponge.shake256_inc_init.run F fuel ctx pos i0 = some ⟨incInit.s, incInit.pos, 25⟩ ∧
+    SqiGen.Sponge.shake128_inc_init.run F fuel ctx pos i0 = some ⟨incInit.s, incInit.pos, 25⟩ :=
+  ⟨SqiProofs.SpongeGen.inc_init_eq F fuel ctx pos i0 hf, SqiProofs.SpongeGen.inc_init_eq F fuel ctx pos i0 hf⟩
+
+/-- `shake256_inc_absorb(state, input, inlen)` as re-extracted (callee, argument order, rate macro resolved from the C text)
+    = the model `incAbsorb` at rate 136 -/
+theorem gen_shake256_inc_absorb_eq_model (F : Fips202.State → Fips202.State) (fuel : Nat) (st : IncState) (m : List UInt8)
+    (i0 : Nat) (hp : st.pos < 136) (hf : m.length + 136 < fuel) :
+    ∃ v', SqiGen.Sponge.shake256_inc_absorb.run F fuel st.s st.pos m m.length i0 = some v' ∧
+      v'.s_inc = (incAbsorb F 136 st m).s ∧ v'.pos = (incAbsorb F 136 st m).pos :=
+  SqiProofs.SpongeGen.inc_absorb_eq F fuel 136 st m i0 hp hf
+
+theorem gen_shake128_inc_absorb_eq_model (F : Fips202.State → Fips202.State) (fuel : Nat) (st : IncState) (m : List UInt8)
+    (i0 : Nat) (hp : st.pos < 168) (hf : m.length + 168 < fuel) :
+    ∃ v', SqiGen.Sponge.shake128_inc_absorb.run F fuel st.s st.pos m m.length i0 = some v' ∧
+      v'.s_inc = (incAbsorb F 168 st m).s ∧ v'.pos = (incAbsorb F 168 st m).pos :=
+  SqiProofs.SpongeGen.inc_absorb_eq F fuel 168 st m i0 hp hf
+
+/-- `shake256_inc_finalize` / `shake128_inc_finalize` as re-extracted = `incFinalize` with rate 136 / 168 and domain byte 0x1F -/
+theorem gen_shake_inc_finalize_eq_model (F : Fips202.State → Fips202.State) (fuel : Nat) (st : IncState) :
+    SqiGen.Sponge.shake256_inc_finalize.run F fuel st.s st.pos
+      = some ⟨(incFinalize 136 0x1F st).s, (incFinalize 136 0x1F st).pos, 136, 0x1F⟩ ∧
+    SqiGen.Sponge.shake128_inc_finalize.run F fuel st.s st.pos
+      = some ⟨(incFinalize 168 0x1F st).s, (incFinalize 168 0x1F st).pos, 168, 0x1F⟩ :=
+  ⟨SqiProofs.SpongeGen.inc_finalize_eq F fuel st 136 0x1F, SqiProofs.SpongeGen.inc_finalize_eq F fuel st 168 0x1F⟩
+
+/-- `shake256_inc_squeeze(output, outlen, state)` as re-extracted = the model `incSqueeze` at rate 136 -/
+theorem gen_shake256_inc_squeeze_eq_model (F : Fips202.State → Fips202.State) (fuel : Nat) (st : IncState)
+    (hp : st.pos ≤ 136) (h : List UInt8) (hoff outlen i0 : Nat) (hl : hoff + outlen ≤ h.length) (hf : outlen + 136 < fuel) :
+    ∃ v', SqiGen.Sponge.shake256_inc_squeeze.run F fuel h hoff outlen st.s st.pos i0 = some v' ∧
+      SqiProofs.SpongeGen.Written h v'.h hoff outlen (incSqueeze F 136 st outlen).1 ∧
+      (⟨v'.s_inc, v'.pos⟩ : IncState) = (incSqueeze F 136 st outlen).2 :=
+  SqiProofs.SpongeGen.inc_squeeze_eq F fuel 136 (by decide) st hp h hoff outlen i0 hl hf
+
+theorem gen_shake128_inc_squeeze_eq_model (F : Fips202.State → Fips202.State) (fuel : Nat) (st : IncState)
+    (hp : st.pos ≤ 168) (h : List UInt8) (hoff outlen i0 : Nat) (hl : hoff + outlen ≤ h.length) (hf : outlen + 168 < fuel) :
+    ∃ v', SqiGen.Sponge.shake128_inc_squeeze.run F fuel h hoff outlen st.s st.pos i0 = some v' ∧
+      SqiProofs.SpongeGen.Written h v'.h hoff outlen (incSqueeze F 168 st outlen).1 ∧
+      (⟨v'.s_inc, v'.pos⟩ : IncState) = (incSqueeze F 168 st outlen).2 :=
+  SqiProofs.SpongeGen.inc_squeeze_eq F fuel 168 (by decide) st hp h hoff outlen i0 hl hf
+
+
+/-- `shake256_absorb` / `shake128_absorb` as re-extracted (fresh 25-lane allocation with arbitrary contents, then
+    `keccak_absorb(state->ctx, RATE, input, inlen, 0x1F)`) = the model `keccakAbsorb` at rate 136 / 168, domain byte 0x1F -/
+theorem gen_shake_absorb_eq_model (F : Fips202.State → Fips202.State) (fuel : Nat) (m : List UInt8)
+    (s0 : Fips202.State) (t0 : List UInt8) (i0 : Nat) (ht : t0.length = 200) (hf : m.length + 200 < fuel) :
+    (∃ v', SqiGen.Sponge.shake256_absorb.run F fuel s0 m m.length i0 t0 = some v' ∧ v'.s = keccakAbsorb F 136 m 0x1F) ∧
+    (∃ v', SqiGen.Sponge.shake128_absorb.run F fuel s0 m m.length i0 t0 = some v' ∧ v'.s = keccakAbsorb F 168 m 0x1F) :=
+  ⟨SqiProofs.SpongeGen.keccak_absorb_eq F fuel 136 m 0x1F s0 t0 i0 ht (by decide) (by decide) hf,
+   SqiProofs.SpongeGen.keccak_absorb_eq F fuel 168 m 0x1F s0 t0 i0 ht (by decide) (by decide) hf⟩
+
+/-- `shake256_squeezeblocks(output, nblocks, state)` as re-extracted = the model `squeezeBlocksC` at rate 136 -/
+theorem gen_shake256_squeezeblocks_eq_model (F : Fips202.State → Fips202.State) (fuel : Nat)
+    (h : List UInt8) (hoff nblocks i0 : Nat) (s : Fips202.State) (hl : hoff + nblocks * 136 ≤ h.length)
+    (hf : 136 ≤ fuel) (hn : nblocks ≤ fuel) :
+    ∃ v', SqiGen.Sponge.shake256_squeezeblocks.run F fuel h hoff nblocks s i0 = some v' ∧
+      SqiProofs.SpongeGen.Written h v'.h hoff (nblocks * 136) (squeezeBlocksC F 136 nblocks s).1 ∧
+      v'.s = (squeezeBlocksC F 136 nblocks s).2 :=
+  SqiProofs.SpongeGen.squeezeblocks_eq F fuel 136 (by decide) hf nblocks fuel ⟨h, hoff, nblocks, s, 136, i0⟩ rfl rfl hl hn
+
+theorem gen_shake128_squeezeblocks_eq_model (F : Fips202.State → Fips202.State) (fuel : Nat)
+    (h : List UInt8) (hoff nblocks i0 : Nat) (s : Fips202.State) (hl : hoff + nblocks * 168 ≤ h.length)
+    (hf : 168 ≤ fuel) (hn : nblocks ≤ fuel) :
+    ∃ v', SqiGen.Sponge.shake128_squeezeblocks.run F fuel h hoff nblocks s i0 = some v' ∧
+      SqiProofs.SpongeGen.Written h v'.h hoff (nblocks * 168) (squeezeBlocksC F 168 nblocks s).1 ∧
+      v'.s = (squeezeBlocksC F 168 nblocks s).2 :=
+  SqiProofs.SpongeGen.squeezeblocks_eq F fuel 168 (by decide) hf nblocks fuel ⟨h, hoff, nblocks, s, 168, i0⟩ rfl rfl hl hn
+
 theorem genF_eq : SqiGen.Keccak.keccakF = Fips202.keccakF := funext keccakF_gen_eq_spec
 
 /-- `shake256_eq_spec`: the model of `SHAKE256` / `shake256` (one-shot: keccak_absorb, whole blocks, tail through a
@@ -178,6 +259,49 @@ theorem shake128_eq_spec (msg : List UInt8) (outlen : Nat) :
   rw [h.2.2.2.2.2.2.2.2.1, h.2.2.2.2.2.2.2.2.2.1, h.2.2.2.2.2.2.2.2.2.2.1, h.2.2.2.2.2.2.2.2.2.2.2.2.2.2.1, genF_eq]
   exact SqiProofs.Sponge.oneShot_eq_spec Fips202.keccakF 168 (by decide) (by decide) (by decide) 0x1F msg outlen
 
+/-- **the one-shot `shake256(output, outlen, input, inlen)` as re-extracted from fips202.c** (statement sequence, rate macros,
+    the `shake256_absorb` / `shake256_squeezeblocks` wrappers, `keccak_absorb`, `keccak_squeezeblocks`, `store64`, `load64`, the copy loop,
+    and the permutation — all generated from the C text): it terminates, writes exactly FIPS 202 SHAKE256(msg) truncated to `outlen` at
+    `output … output + outlen` and leaves every other byte of the buffer unchanged — for every message, every output length and
+    whatever the uninitialised stack / heap memory (`s0`, `t0`, `ta`, loop counters) contains -/
+theorem gen_shake256_oneshot_eq_spec (fuel : Nat) (h : List UInt8) (hoff outlen : Nat) (msg : List UInt8)
+    (s0 : Fips202.State) (t0 : List UInt8) (ia : Nat) (ta : List UInt8) (iq1 iq2 ic : Nat)
+    (ht0 : t0.length = SqiGen.Sponge.shake256.tlen) (hta : ta.length = 200) (hl : hoff + outlen ≤ h.length)
+    (hf : msg.length + outlen + 200 < fuel) :
+    ∃ h', SqiGen.Sponge.shake256.run SqiGen.Keccak.keccakF fuel h hoff outlen msg msg.length s0 t0 ia ta iq1 iq2 ic = some h' ∧
+      SqiProofs.SpongeGen.Written h h' hoff outlen (Fips202.shake256 msg outlen) := by
+  have hs := shake256_eq_spec msg outlen
+  have hp := extracted_params
+  rw [hp.1, hp.2.1, hp.2.2.1, hp.2.2.2.2.2.2.1] at hs
+  rw [← hs]
+  exact SqiProofs.SpongeGen.shake256_oneshot_eq SqiGen.Keccak.keccakF fuel h hoff outlen msg s0 t0 ia ta iq1 iq2 ic ht0 hta hl hf
+
+/-- **the one-shot `shake128(output, outlen, input, inlen)` as re-extracted from fips202.c** (statement sequence, rate macros,
+    the `shake128_absorb` / `shake128_squeezeblocks` wrappers, `keccak_absorb`, `keccak_squeezeblocks`, `store64`, `load64`, the copy loop,
+    and the permutation — all generated from the C text): it terminates, writes exactly FIPS 202 SHAKE128(msg) truncated to `outlen` at
+    `output … output + outlen` and leaves every other byte of the buffer unchanged — for every message, every output length and
+    whatever the uninitialised stack / heap memory (`s0`, `t0`, `ta`, loop counters) contains -/
+theorem gen_shake128_oneshot_eq_spec (fuel : Nat) (h : List UInt8) (hoff outlen : Nat) (msg : List UInt8)
+    (s0 : Fips202.State) (t0 : List UInt8) (ia : Nat) (ta : List UInt8) (iq1 iq2 ic : Nat)
+    (ht0 : t0.length = SqiGen.Sponge.shake128.tlen) (hta : ta.length = 200) (hl : hoff + outlen ≤ h.length)
+    (hf : msg.length + outlen + 200 < fuel) :
+    ∃ h', SqiGen.Sponge.shake128.run SqiGen.Keccak.keccakF fuel h hoff outlen msg msg.length s0 t0 ia ta iq1 iq2 ic = some h' ∧
+      SqiProofs.SpongeGen.Written h h' hoff outlen (Fips202.shake128 msg outlen) := by
+  have hs := shake128_eq_spec msg outlen
+  have hp := extracted_params
+  rw [hp.2.2.2.2.2.2.2.2.1, hp.2.2.2.2.2.2.2.2.2.1, hp.2.2.2.2.2.2.2.2.2.2.1, hp.2.2.2.2.2.2.2.2.2.2.2.2.2.2.1] at hs
+  rw [← hs]
+  exact SqiProofs.SpongeGen.shake128_oneshot_eq SqiGen.Keccak.keccakF fuel h hoff outlen msg s0 t0 ia ta iq1 iq2 ic ht0 hta hl hf
+
+/-- non-vacuity: the hypotheses of `gen_shake256_oneshot_eq_spec` are met by a 40-byte buffer, offset 4, 32 output bytes, a 3-byte
+    message and non-zero garbage in the uninitialised blocks -/
+example : ∃ h', SqiGen.Sponge.shake256.run SqiGen.Keccak.keccakF 1000 (List.replicate 40 0) 4 32 [1, 2, 3] 3 Fips202.zeroState
+      (List.replicate 136 7) 5 (List.replicate 200 9) 1 2 3 = some h' ∧
+    SqiProofs.SpongeGen.Written (List.replicate 40 0) h' 4 32 (Fips202.shake256 [1, 2, 3] 32) :=
+  gen_shake256_oneshot_eq_spec 1000 (List.replicate 40 0) 4 32 [1, 2, 3] Fips202.zeroState (List.replicate 136 7) 5
+    (List.replicate 200 9) 1 2 3 (by simp [SqiGen.Sponge.shake256.tlen]) List.length_replicate (by simp only [List.length_replicate]; omega)
+    (by simp only [List.length_cons, List.length_nil]; omega)
+
 /-- the incremental API (`shake256_inc_init/absorb/finalize/squeeze`), for any chunking of the message and any split
     of the output request, produces FIPS 202 SHAKE256 of the concatenation, truncated to the total request -/
 theorem shake256_inc_eq_spec (chunks : List (List UInt8)) (reqs : List Nat) :
@@ -187,6 +311,37 @@ theorem shake256_inc_eq_spec (chunks : List (List UInt8)) (reqs : List Nat) :
   have h := extracted_params
   rw [h.2.2.2.1, h.2.2.2.2.1, h.2.2.2.2.2.1, h.2.2.2.2.2.2.2.1, genF_eq]
   exact SqiProofs.Sponge.incSession_eq_spec Fips202.keccakF 136 (by decide) (by decide) (by decide) 0x1F (by decide) chunks reqs
+
+/-- a whole `shake256_inc_*` session through the **re-extracted** wrappers (init on a fresh allocation with arbitrary contents,
+    one absorb call, finalize, one squeeze call into `h + hoff`), with the re-extracted permutation: the four generated programs
+    terminate and the `outlen` bytes written are FIPS 202 SHAKE256(m) truncated to `outlen`; the rest of `h` is unchanged.
+    (Any chunking / any split: compose `gen_shake256_inc_absorb_eq_model`, `gen_shake256_inc_squeeze_eq_model` with
+    `shake256_inc_eq_spec`.) -/
+theorem gen_shake256_inc_calls_eq_spec (fuel : Nat) (ctx : Fips202.State) (pos i0 i1 i2 : Nat) (m : List UInt8)
+    (h : List UInt8) (hoff outlen : Nat) (hl : hoff + outlen ≤ h.length) (hf : m.length + outlen + 136 < fuel) :
+    ∃ v1 v2 v3 v4,
+      SqiGen.Sponge.shake256_inc_init.run SqiGen.Keccak.keccakF fuel ctx pos i0 = some v1 ∧
+      SqiGen.Sponge.shake256_inc_absorb.run SqiGen.Keccak.keccakF fuel v1.s_inc v1.pos m m.length i1 = some v2 ∧
+      SqiGen.Sponge.shake256_inc_finalize.run SqiGen.Keccak.keccakF fuel v2.s_inc v2.pos = some v3 ∧
+      SqiGen.Sponge.shake256_inc_squeeze.run SqiGen.Keccak.keccakF fuel h hoff outlen v3.s_inc v3.pos i2 = some v4 ∧
+      SqiProofs.SpongeGen.Written h v4.h hoff outlen (Fips202.shake256 m outlen) := by
+  have hspec := shake256_inc_eq_spec [m] [outlen]
+  have hp := extracted_params
+  rw [hp.2.2.2.1, hp.2.2.2.2.1, hp.2.2.2.2.2.1, hp.2.2.2.2.2.2.2.1] at hspec
+  obtain ⟨v2, a1, a2, a3⟩ := gen_shake256_inc_absorb_eq_model SqiGen.Keccak.keccakF fuel incInit m i1 (by decide) (by omega)
+  have fin := (gen_shake_inc_finalize_eq_model SqiGen.Keccak.keccakF fuel (incAbsorb SqiGen.Keccak.keccakF 136 incInit m)).1
+  obtain ⟨v4, s1, s2, _⟩ := gen_shake256_inc_squeeze_eq_model SqiGen.Keccak.keccakF fuel
+    (incFinalize 136 0x1F (incAbsorb SqiGen.Keccak.keccakF 136 incInit m)) (by simp [incFinalize]) h hoff outlen i2 hl (by omega)
+  refine ⟨_, v2, ⟨(incFinalize 136 0x1F (incAbsorb SqiGen.Keccak.keccakF 136 incInit m)).s,
+    (incFinalize 136 0x1F (incAbsorb SqiGen.Keccak.keccakF 136 incInit m)).pos, 136, 0x1F⟩, v4,
+    (gen_shake_inc_init_eq_model SqiGen.Keccak.keccakF fuel ctx pos i0 (by omega)).1, a1, ?_, s1, ?_⟩
+  · rw [a2, a3]; exact fin
+  · have e : (incSession SqiGen.Keccak.keccakF 136 136 136 0x1F [m] [outlen]).1
+        = (incSqueeze SqiGen.Keccak.keccakF 136 (incFinalize 136 0x1F (incAbsorb SqiGen.Keccak.keccakF 136 incInit m)) outlen).1 := by
+      simp [incSession, incSqueezeMany, incAbsorbMany]
+    rw [e] at hspec
+    rw [hspec] at s2
+    simpa using s2
 
 theorem shake128_inc_eq_spec (chunks : List (List UInt8)) (reqs : List Nat) :
     (incSession SqiGen.Keccak.keccakF SqiGen.Keccak.shake128_inc_absorb_rate SqiGen.Keccak.shake128_inc_finalize_rate
